@@ -519,4 +519,107 @@ theorem partial_expands (be : Backend) (a b c p : Nat) (ha : a < 256) (hb : b < 
 
 example : (192 : Nat) * 16777216 + 168 * 65536 = 0xC0A80000 := by decide
 
+/-- `cidr_abbrev_to_verbose` on 2-4 dotted decimal octets without a prefix: pad with zero octets,
+    append the class prefix of the first octet -/
+theorem abbrev_tokens (os : List Nat) (a : Nat) (rest : List Nat) (hos : os = a :: rest) (ha : a < 256)
+    (hlen : 2 ≤ os.length ∧ os.length ≤ 4) :
+    cidrAbbrevToVerbose (['.'].intercalate (os.map dec)) =
+      ['.'].intercalate (os.map dec ++ List.replicate (4 - os.length) ['0']) ++ ['/'] ++ dec (classOf a) := by
+  have hd : ∀ t ∈ os.map dec, '.' ∉ t := by
+    intro t ht; obtain ⟨n, _, rfl⟩ := List.mem_map.mp ht; exact C03L.dot_not_in_dec n
+  have hne : os.map dec ≠ [] := by rw [hos]; simp
+  have hsplit : (['.'].intercalate (os.map dec)).splitOn '.' = os.map dec := List.splitOn_intercalate _ hd hne
+  generalize htxt : ['.'].intercalate (os.map dec) = txt at *
+  have hmem : ∀ ch ∈ txt, ch = '.' ∨ ∃ n, ch ∈ dec n := by
+    intro ch hch
+    rw [← htxt] at hch
+    rcases mem_intercalate '.' _ ch hch with e | ⟨t, ht, hc⟩
+    · exact Or.inl e
+    · obtain ⟨n, _, rfl⟩ := List.mem_map.mp ht; exact Or.inr ⟨n, hc⟩
+  have hcol : txt.contains ':' = false := by
+    apply contains_false_of_not_mem
+    intro h; rcases hmem _ h with e | ⟨n, hn⟩
+    · exact absurd e (by decide)
+    · exact C03L.colon_not_in_dec n hn
+  have hsl : txt.contains '/' = false := by
+    apply contains_false_of_not_mem
+    intro h; rcases hmem _ h with e | ⟨n, hn⟩
+    · exact absurd e (by decide)
+    · exact (dec_decCh n _ hn).2.2.2.2.2.2.1 rfl
+  have hdot : '.' ∈ txt := by
+    rw [← htxt, hos]
+    cases rest with
+    | nil => simp [hos] at hlen
+    | cons b r => simp only [List.map_cons]; rw [intercalate_cons_cons]; simp
+  have hnil : (txt == []) = false := by
+    cases txt with
+    | nil => simp at hdot
+    | cons _ _ => rfl
+  have hcls : classfulPrefix (a : Int) = some (classOf a) := by
+    rw [classful_rules]
+    have : 0 ≤ (a : Int) ∧ (a : Int) ≤ 255 := by omega
+    simp [this]
+  have hlen4 : ¬ ((os.map dec).length > 4) := by simp; omega
+  have hhead : (os.map dec ++ List.replicate (4 - (os.map dec).length) ['0']).headD [] = dec a := by
+    rw [hos]; simp
+  unfold cidrAbbrevToVerbose
+  simp only [hcol, hnil, Bool.or_self, Bool.false_eq_true, if_false, pyInt_dot _ hdot, splitSlash_none _ hsl,
+    Bool.not_true, hsplit, hlen4, hhead, pyInt_dec, hcls]
+  simp
+
+/-- **Classful abbreviations with `implicit_prefix=True`**: `a.b` is `a.b.0.0/<class of a>` and
+    `a.b.c` is `a.b.c.0/<class of a>`. -/
+theorem abbrev_multi (be : Backend) (a b c : Nat) (ha : a < 256) (hb : b < 256) (hc : c < 256) :
+    ipNetwork be (.str (dec a ++ '.' :: dec b)) true (some 4) 0 = .ok ⟨4, a * 16777216 + b * 65536, classOf a⟩ ∧
+    ipNetwork be (.str (dec a ++ '.' :: (dec b ++ '.' :: dec c))) true (some 4) 0
+      = .ok ⟨4, a * 16777216 + b * 65536 + c * 256, classOf a⟩ := by
+  have w4 : width 4 = 32 := rfl
+  have hcl : classOf a ≤ width 4 := by
+    rw [w4]; unfold classOf; split <;> (try split) <;> (try split) <;> (try split) <;> omega
+  have d0 : dec 0 = ['0'] := by decide
+  have ntoa_of : ∀ x y z : Nat, x < 256 → y < 256 → z < 256 →
+      ntoa (x * 16777216 + y * 65536 + z * 256) = dec x ++ '.' :: (dec y ++ '.' :: (dec z ++ '.' :: dec 0)) := by
+    intro x y z hx hy hz
+    rw [ntoa_eq]
+    have e0 : (x * 16777216 + y * 65536 + z * 256) / 16777216 = x := by omega
+    have e1 : (x * 16777216 + y * 65536 + z * 256) / 65536 % 256 = y := by omega
+    have e2 : (x * 16777216 + y * 65536 + z * 256) / 256 % 256 = z := by omega
+    have e3 : (x * 16777216 + y * 65536 + z * 256) % 256 = 0 := by omega
+    rw [e0, e1, e2, e3]
+    simp [List.intercalate]
+  have h44 : (4 : Nat) = 4 ∨ (4 : Nat) = 6 := Or.inl rfl
+  have hparse : ∀ s, parseIpNetwork be 4 (.str s) true 0 = parseIpNetwork be 4 (.str (cidrAbbrevToVerbose s)) false 0 := by
+    intro s; unfold parseIpNetwork; simp
+  constructor
+  · have hab := abbrev_tokens [a, b] a [b] rfl ha (by simp)
+    have e1 : ['.'].intercalate ([a, b].map dec) = dec a ++ '.' :: dec b := by simp [List.intercalate]
+    have hv : a * 16777216 + b * 65536 < 2 ^ width 4 := by rw [w4]; omega
+    have e2 : ['.'].intercalate ([a, b].map dec ++ List.replicate (4 - [a, b].length) ['0']) ++ ['/'] ++ dec (classOf a)
+        = intToStr be 4 (a * 16777216 + b * 65536) ++ '/' :: dec (classOf a) := by
+      show _ = ntoa (a * 16777216 + b * 65536) ++ _
+      have := ntoa_of a b 0 ha hb (by decide)
+      simp only [Nat.zero_mul, Nat.add_zero] at this
+      rw [this, d0]; simp [List.intercalate]
+    rw [e1, e2] at hab
+    unfold ipNetwork
+    simp only [if_pos h44, hparse, hab]
+    rw [parse_with_prefix be 4 (Or.inl rfl) _ hv _ _ (C03L.slash_not_in_dec _) (resolve_dec be 4 _) hcl,
+      applyNohost_ok 4 (Or.inl rfl) 0 _ _ hcl]
+    rfl
+  · have hab := abbrev_tokens [a, b, c] a [b, c] rfl ha (by simp)
+    have e1 : ['.'].intercalate ([a, b, c].map dec) = dec a ++ '.' :: (dec b ++ '.' :: dec c) := by simp [List.intercalate]
+    have hv : a * 16777216 + b * 65536 + c * 256 < 2 ^ width 4 := by rw [w4]; omega
+    have e2 : ['.'].intercalate ([a, b, c].map dec ++ List.replicate (4 - [a, b, c].length) ['0']) ++ ['/'] ++ dec (classOf a)
+        = intToStr be 4 (a * 16777216 + b * 65536 + c * 256) ++ '/' :: dec (classOf a) := by
+      show _ = ntoa (a * 16777216 + b * 65536 + c * 256) ++ _
+      rw [ntoa_of a b c ha hb hc, d0]; simp [List.intercalate]
+    rw [e1, e2] at hab
+    unfold ipNetwork
+    simp only [if_pos h44, hparse, hab]
+    rw [parse_with_prefix be 4 (Or.inl rfl) _ hv _ _ (C03L.slash_not_in_dec _) (resolve_dec be 4 _) hcl,
+      applyNohost_ok 4 (Or.inl rfl) 0 _ _ hcl]
+    rfl
+
+example : classOf 192 = 24 ∧ (192 : Nat) * 16777216 + 168 * 65536 = 0xC0A80000 := by decide
+
 end NV.C03
